@@ -285,6 +285,12 @@ func clipVertexSpecs(thorough bool) []composeSpec {
 			if !onEdge {
 				return fmt.Sprintf("output vertex %d is neither an input vertex nor on a line of the box", k)
 			}
+			// a cut point of a line is classified again before it is accepted: those comparisons must place it
+			// inside the box (a ring's cut points are inside by convexity of the later passes, which no
+			// comparison states)
+			if !ctx.isRing && !inside(pt) {
+				return fmt.Sprintf("output vertex %d is a cut point on a line of the box, but nothing on this path places it between the box's other two edges (it may lie beside the box)", k)
+			}
 		}
 		for i := range ctx.ids {
 			if len(ctx.ids) < 2 && !ctx.isRing {
@@ -358,7 +364,7 @@ func clipVertexSpecs(thorough bool) []composeSpec {
 			}})
 		}
 		specs = append(specs, composeSpec{entry: entry, tag: desc, terms: true, anyPath: true, skipTruncated: true, generalPosition: true, maxVisits: 6, maxIter: 6, termLimit: 4, cases: cases,
-			desc:  "every input vertex in the result is placed inside the box by the comparisons made on the path, every other result vertex lies on a line of the box, every input vertex the path places inside the box is in the result, and the travel order is kept",
+			desc:  "every input vertex in the result is placed inside the box by the comparisons made on the path, every other result vertex lies on a line of the box (for a line: and between the other two edges, by the comparisons that classified it again), every input vertex the path places inside the box is in the result, and the travel order is kept",
 			judge: judge})
 	}
 	mk("clip.line", "LineString", 0, "closed box")
